@@ -48,8 +48,8 @@ def sig_of(s):
 
 
 def nontrivial(s, rows):
-    # antecedent of NoDoubleSign: some validator is delivered twice for one epoch;
-    # antecedent of RefusedMeansNoSign: the service received data that does not meet the rule
+    # antecedent of NoDoubleSign: some validator is delivered twice for one epoch - in two duties or at two
+    # places of ONE duty; antecedent of RefusedMeansNoSign: the service received data that does not meet the rule
     seen, twice = set(), False
     slot = {}
     bad = False
@@ -64,6 +64,20 @@ def nontrivial(s, rows):
             d, sl = r["data"], slot[r["run"]]
             bad = bad or not (d["slot"] == sl and d["tgt"] == sl // SPE and d["src"] <= d["tgt"])
     return twice or bad
+
+
+SHAPE_SC = 5001
+
+
+def shape_scenarios(tier):
+    """The shape of ONE duty, enumerated exhaustively by TLC (Scen_Attester, mode "shape"): every sequence of entries
+    over the validators (a validator listed once / again / three times, repeated entries in the same or another
+    committee), on a fresh instance or after a run that marked any subset, any subset without account, any subset
+    unsigned or the signer failing.  One history = one scenario; all run gated."""
+    cfg = "Scen_Attester_shape.cfg" if tier == "quick" else "Scen_Attester_shapebig.cfg"
+    hs = vf.tlc_scenarios(PID, "Scen_Attester", cfg, exhaustive=True, workers=4, timeout=900, name="scen-shape")
+    hs = sorted(hs, key=lambda h: json.dumps(h, sort_keys=True))     # the order TLC's workers print in is not stable
+    return [{"sc": SHAPE_SC + i, "mode": "gated", "strategy": "", "merge": False, "steps": h} for i, h in enumerate(hs)]
 
 
 def scenarios(tier):
@@ -85,7 +99,7 @@ def scenarios(tier):
         elif i % 8 == 7 and ep and max(ep) - min(ep) <= 1:
             mode, strategy = "free", strategies[(i // 8) % 3]
         out.append({"sc": i + 1, "mode": mode, "strategy": strategy, "merge": False, "steps": h})
-    return out
+    return out + shape_scenarios(tier)
 
 
 # ---------------------------------------------------------------------------------------------
@@ -250,22 +264,47 @@ def run_vouch(v, tier):
 
 def vouch_model_start(tier):
     """The exhaustive runs of the composition go on beside everything else of the check."""
-    out, neg = {}, {}
-    ths = [threading.Thread(target=vouch_model, args=(tier, out)), threading.Thread(target=vouch_model_neg, args=(tier, neg))]
+    out, neg, shp = {}, {}, {}
+    ths = [threading.Thread(target=vouch_model, args=(tier, out)), threading.Thread(target=vouch_model_neg, args=(tier, neg)),
+           threading.Thread(target=shape_model, args=(tier, shp))]
     for th in ths:
         th.start()
-    return ths, out, neg
+    return ths, out, neg, shp
 
 
 def vouch_model_join(v, started):
-    ths, out, neg = started
+    ths, out, neg, shp = started
     for th in ths:
         th.join()
-    for o in (out, neg):
+    for o in (out, neg, shp):
         if "err" in o:
             raise o["err"]
-    for r in out["mc"] + neg["mc"]:
+    for r in out["mc"] + neg["mc"] + shp["mc"]:
         v.add_mc(r)
+
+
+def _expect_walk_rejected(cfg, timeout=600):
+    """The control design of the duty-shape class (Attester!WalkReq: the request built by walking the raw duty) must be
+    rejected by TLC once a duty may list a validator twice: otherwise the model's duty alphabet says nothing about it."""
+    r = vf.tlc(PID, "mc-" + cfg.replace(".cfg", ""), "MC_Attester", cfg, workers=4, timeout=timeout, heap="6g")
+    if r["timed_out"] or r["kind"] != "invariant" or r["violated"] != "NoDoubleSign":
+        raise vf.Broken("%s should violate NoDoubleSign (vacuous duty alphabet?): %s %s\n%s" % (cfg, r["kind"], r["violated"], r["out"][-1500:]))
+    vf.log("TLC MC_Attester/%s: NoDoubleSign violated as it must be (%d distinct states, %.1fs)" % (cfg, r["distinct"], r["wall_s"]))
+
+
+def shape_model(tier, out):
+    """The duty-shape models (third thread): the attester over duties that are SEQUENCES of entries with repeats, on
+    pre-marked instances; the control design holds while validators are distinct and is rejected once they may repeat."""
+    try:
+        res = [vf.tlc_exhaustive(PID, "MC_Attester", "MC_Attester_shape.cfg", workers=4, timeout=600),
+               vf.tlc_exhaustive(PID, "MC_Attester", "MC_Attester_walk_inj.cfg", workers=4, timeout=600)]
+        _expect_walk_rejected("MC_Attester_walk.cfg")
+        if tier == "thorough":
+            res.append(vf.tlc_exhaustive(PID, "MC_Attester", "MC_Attester_shapebig.cfg", timeout=1500))
+            res.append(vf.tlc_exhaustive(PID, "MC_Attester", "MC_Attester_ovlrep.cfg", timeout=1500))
+        out["mc"] = res
+    except BaseException as e:      # re-raised by the caller
+        out["err"] = e
 
 
 def run(tier):
@@ -273,7 +312,8 @@ def run(tier):
     v.assumptions = [
         "Env_Window: a run for epoch e is not started once a run for an epoch >= e+2 has started (the controller "
         "schedules attestation jobs for the current and next epoch only)",
-        "Env_DutyWellFormed: validators of a duty are distinct, arrays parallel, every committee has a size",
+        "Env_DutyWellFormed: a duty has at least one entry (attester.MergeDuties makes none without), arrays parallel, every "
+        "committee has a size; NOT assumed: distinct validators (a duty is a sequence of entries that may repeat a validator)",
         "Env_AccountsSubset: the account manager returns accounts of requested validators only",
         "chain time, beacon nodes, account manager, signer and submitter are scripted fakes at the service's interfaces",
     ]
@@ -296,10 +336,14 @@ def _run(v, tier, started):
     run_vouch(v, tier)
     vouch_model_join(v, started)
     v.coverage["rule"] = ("behaviours of Attester.tla generated by TLC simulation (seeded): multi-run histories on one "
-                          "service instance (repeated / re-assigned duties, failures at every step), replayed gated "
+                          "service instance (repeated / re-assigned duties, duties that list a validator more than once, failures "
+                          "of every kind at every step, incomplete answers of the node), replayed gated "
                           "(interleaved at interface-call grain), free-running (concurrent marking loops) and behind the "
-                          "real best/majority/first strategies; non-trivial = a validator delivered twice in an epoch or "
-                          "data violating the rule reached the service; distinct by step list and mode.  System level: environment "
+                          "real best/majority/first strategies; plus the duty-shape family enumerated exhaustively by TLC (every "
+                          "sequence of entries over the validators incl. repeats in the same / another committee, on a fresh or "
+                          "pre-marked instance, any subset without account / unsigned); the signer requests are judged position by "
+                          "position of every recorded call; non-trivial = a validator delivered twice in an epoch (two duties or two "
+                          "entries of one) or data violating the rule reached the service; distinct by step list and mode.  System level: environment "
                           "parts (clock, head events, reorgs, slow attestation data, fast track on/off) of TLC-simulated behaviours "
                           "of Vouch.tla replayed in real time on the real controller + real scheduler + real attester; non-trivial = "
                           "a refresh withdrew a waiting job, the fast track started one, or a job body outlived its slot")
